@@ -22,6 +22,12 @@ func init() {
 
 func c20() []*Ob {
 	return []*Ob{
+		{Prop: "C20", ID: "C20.12", Engine: "OWN(pool)", Floor: 1,
+			Desc:  "one request, one filter object: what acquireDocFieldsFilter returns comes out of the pool or is newly allocated, never a package-level object — releaseDocFieldsFilter puts whatever it is given into the pool, so a shared 'no filter' singleton ends up in the pool once per unfiltered fetch and is then handed to several filtered fetches at the same time",
+			Check: func(c *Ctx) { acquireHandsOutOwnedObjects(c) }},
+		{Prop: "C20", ID: "C20.13", Engine: "WHO-MAY-CALL(case folding)", Floor: 1,
+			Desc:  "field names are JSON keys: parseFieldList (and its closures) does not fold case (strings.EqualFold, ToLower, ...) — de-duplicating the list case-insensitively drops the second spelling of 'traceID, traceid', which 'fields' then removes from documents and 'fields except' leaves in",
+			Check: func(c *Ctx) { fieldNamesAreCaseSensitive(c) }},
 		{Prop: "C20", ID: "C20.10", Engine: "PAIR(two sites)", Floor: 1,
 			Desc:  "a pooled fields filter never carries the previous request's field list: acquireDocFieldsFilter sets the filter on every path, or releaseDocFieldsFilter clears it before the object goes back to the pool",
 			Check: func(c *Ctx) { pooledFilterIsReset(c) }},
